@@ -323,3 +323,21 @@ Proof.
     + intros e0 H0. apply in_app_or in H0. destruct H0 as [H0|[<-|[]]]; [apply Ho; exact H0 | exact Hx].
     + cbn [h_arr]. rewrite Hm'. exact Hok2.
 Qed.
+
+(* ---- order embedding of Go's signed loads into the model's N loads ---- *)
+Lemma emb_order : forall a b, int64_range a = true -> int64_range b = true ->
+  sf_less (0%nat, emb a) (1%nat, emb b) = (a <? b)%Z.
+Proof.
+  intros a b Ha Hb. unfold int64_range in *. apply andb_prop in Ha, Hb.
+  destruct Ha as [Ha _], Hb as [Hb _]. apply Z.leb_le in Ha, Hb.
+  unfold sf_less, emb. simpl.
+  destruct (a <? b)%Z eqn:E.
+  - apply Z.ltb_lt in E. apply N.ltb_lt. apply Z2N.inj_lt; lia.
+  - apply Z.ltb_ge in E. apply N.ltb_ge. apply Z2N.inj_le; lia.
+Qed.
+
+Lemma unemb_emb : forall a, int64_range a = true -> unemb (emb a) = a.
+Proof.
+  intros a Ha. unfold int64_range in Ha. apply andb_prop in Ha. destruct Ha as [Ha _]. apply Z.leb_le in Ha.
+  unfold unemb, emb. rewrite Z2N.id by lia. lia.
+Qed.
